@@ -50,7 +50,9 @@ def install():
 
     def run_propka(args, biomolecule):
         if STUB["table"] is None:
-            return STUB["orig"](args, biomolecule)
+            rows, text = STUB["orig"](args, biomolecule)
+            STUB["real_rows"] = [dict(r) for r in rows]
+            return rows, text
         return [dict(r) for r in STUB["table"]], "stubbed pKa table"
 
     pmain.run_propka = run_propka
@@ -227,7 +229,9 @@ def judge_groups(res, spec, truth, items, groups, r, ph, ff):
 def build(rng, seq=None, nres=None):
     seq = seq or [rng.choice(GROUPS + ["ALA", "SER", "GLY"]) for _ in range(nres or rng.randint(3, 7))]
     pep = S.peptide(seq, rng, hydrogens=rng.choice(["none", "none", "all"]))
-    items, truth = S.assemble([{"id": "A", "start": rng.choice([1, 5, 40]), "residues": pep}])
+    # numbering includes four-character residue numbers (>= 1000, <= -100), which fill PROPKA's label column
+    items, truth = S.assemble([{"id": rng.choice(["A", "A", "B", "Z"]),
+                                "start": rng.choice([1, 5, 40, 997, 1047, 9990, -3, -104]), "residues": pep}])
     return pdbfmt.to_text(items), items, truth
 
 
@@ -278,7 +282,16 @@ def run_sweep(spec, res, real=False):
         from ..gen import workload
         m = workload.materialise({"w": "frag", "seed": spec["seed"], "ff": spec["ff"],
                                   "p": {"minlen": 8, "maxlen": 16, "nwin": 1, "only_complete": True, "water_prob": 0.0}})
-        text, items, truth = m["text"], m["items"], m["truth"]
+        items, truth = m["items"], m["truth"]
+        shift = [0, 1000 - truth[len(truth) // 2]["resi"], 0, 8000, -400 - truth[0]["resi"]][spec["seed"] % 5]
+        if shift:
+            # same atoms under four-character residue numbers (straddling 999/1000, large, <= -100)
+            for it in items:
+                if isinstance(it, dict):
+                    it["resi"] += shift
+            for t in truth:
+                t["resi"] += shift
+        text = pdbfmt.to_text(items)
         phs = [0.5 * k for k in range(0, 29)]
         rows = None
     else:
@@ -303,6 +316,21 @@ def run_sweep(spec, res, real=False):
         tot, resset, pq = total_and_residues(r)
         series.append((ph, round(tot, 3)))
         res.count("sweep_runs")
+        if real:
+            # the pKa values PROPKA itself returned in this run, judged group by group like the stubbed tables
+            groups = []
+            for row in STUB.get("real_rows") or []:
+                lab = row["group_label"]
+                g = "N+" if lab.startswith("N+") else "C-" if lab.startswith("C-") else row["res_name"]
+                ks = [k for k, t in enumerate(truth) if t["kind"] == "aa" and t["resi"] == row["res_num"]
+                      and t["chain"].strip() == str(row["chain_id"]).strip() and t["resn"] == row["res_name"]]
+                if g not in TITR or len(ks) != 1 or (g in GROUPS and truth[ks[0]]["base"] != g):
+                    res.count("propka_rows_not_judged")
+                    continue
+                groups.append({"group": g, "k": ks[0], "side": "below" if ph < row["pKa"] else "above", "rel": "propka",
+                               "pka": row["pKa"]})
+            res.count("propka_rows_judged", len(groups))
+            judge_groups(res, spec, truth, items, groups, r, ph, spec["ff"])
         if prev is not None:
             wit = {"ff": spec["ff"], "seed": spec["seed"], "real_propka": real, "pH_pair": (prev[0], ph),
                    "series": series[-6:], "table": None if rows is None else [(x["group_label"], x["pKa"]) for x in rows]}
